@@ -485,6 +485,14 @@ fn build_script(rng: &mut Rng, thorough: bool, out: &mut Out) -> Vec<Op> {
         let mut e = vec![];
         submit(&mut e, "load missing.asm");
         v.push(e);
+        // `next N` clocks the machine exactly N times, however large N is (a counting loop shows the number in FF)
+        let mut big = vec![];
+        submit(&mut big, "load p1.asm");
+        submit(&mut big, "next 307199");
+        submit(&mut big, "next 307201");
+        submit(&mut big, "next 1000003");
+        submit(&mut big, "next 65536");
+        v.push(big);
         // the program listing scrolled to different places, both step modes, auto-run, board values
         for (prog, steps) in [("p1.asm", 3u32), ("p2.asm", 17), ("é.asm", 6), ("p2.asm", 150)] {
             let mut f = vec![];
